@@ -305,6 +305,37 @@ struct Running {
     k: usize,
     child: Child,
     respawns: u32,
+    /// Load-independent age of this worker in seconds (see `worker_progress`).
+    virtual_s: f64,
+    last_cpu_s: f64,
+}
+
+/// (CPU seconds consumed so far by the process and the children it waited for, is any of its threads runnable or in
+/// uninterruptible I/O). On a machine where the workers get only a fraction of a core each, wall-clock time says nothing
+/// about how far a worker could have come; its CPU time does. A worker none of whose threads is runnable (blocked on a
+/// lock, sleeping) is not starved, so for it wall-clock time is the right measure. `None` if /proc is unreadable.
+fn worker_progress(pid: u32) -> Option<(f64, bool)> {
+    let stat = std::fs::read_to_string(format!("/proc/{pid}/stat")).ok()?;
+    let rest = &stat[stat.rfind(')')? + 1..];
+    let f: Vec<&str> = rest.split_whitespace().collect();
+    // after the command name: state(0) ... utime(11) stime(12) cutime(13) cstime(14)
+    let ticks: u64 = (11..=14).map(|i| f.get(i).and_then(|x| x.parse::<u64>().ok()).unwrap_or(0)).sum();
+    let hz = unsafe { libc::sysconf(libc::_SC_CLK_TCK) }.max(1) as f64;
+    let mut runnable = false;
+    if let Ok(rd) = std::fs::read_dir(format!("/proc/{pid}/task")) {
+        for e in rd.flatten() {
+            if let Ok(t) = std::fs::read_to_string(e.path().join("stat")) {
+                if let Some(i) = t.rfind(')') {
+                    let st = t[i + 1..].trim_start().chars().next().unwrap_or('S');
+                    if st == 'R' || st == 'D' {
+                        runnable = true;
+                        break;
+                    }
+                }
+            }
+        }
+    }
+    Some((ticks as f64 / hz, runnable))
 }
 
 fn spawn_worker(
@@ -477,12 +508,22 @@ fn parent(monitor: &'static dyn Monitor, args: &Args) -> i32 {
             k,
             child: spawn_worker(&exe, args, k, w, &out, None),
             respawns: 0,
+            virtual_s: 0.0,
+            last_cpu_s: 0.0,
         })
         .collect();
-    let watchdog = Duration::from_secs(monitor.watchdog_s(args.tier));
+    // VERIF_WATCHDOG_S overrides the monitor's budget (used to test the watchdog itself)
+    let watchdog = Duration::from_secs(
+        std::env::var("VERIF_WATCHDOG_S")
+            .ok()
+            .and_then(|v| v.parse().ok())
+            .unwrap_or_else(|| monitor.watchdog_s(args.tier)),
+    );
     let mut deaths: Vec<Finding> = vec![];
     let mut violations_from_deaths: u64 = 0;
     let mut timed_out = false;
+    let mut watchdog_note = String::new();
+    let mut last_sample = Instant::now();
     while !running.is_empty() {
         let mut i = 0;
         while i < running.len() {
@@ -554,6 +595,7 @@ fn parent(monitor: &'static dyn Monitor, args: &Args) -> i32 {
                     if j.is_some() && r.respawns < 20 {
                         r.respawns += 1;
                         r.child = spawn_worker(&exe, args, r.k, w, &out, Some((pi, b)));
+                        r.last_cpu_s = 0.0;
                         running.push(r);
                     } else {
                         inconclusive.push(format!("worker {} could not be resumed", r.k));
@@ -566,8 +608,31 @@ fn parent(monitor: &'static dyn Monitor, args: &Args) -> i32 {
                 }
             }
         }
-        if start.elapsed() > watchdog {
+        // The watchdog measures each worker in load-independent time: CPU seconds while one of its threads is runnable
+        // (a starved worker does not age), wall-clock seconds while it is blocked. A last-resort wall-clock cap of twelve
+        // times the budget bounds the run on a machine where /proc is unusable.
+        if last_sample.elapsed() >= Duration::from_millis(250) {
+            let dt = last_sample.elapsed().as_secs_f64();
+            last_sample = Instant::now();
+            for r in &mut running {
+                match worker_progress(r.child.id()) {
+                    Some((cpu, runnable)) => {
+                        let d_cpu = (cpu - r.last_cpu_s).max(0.0);
+                        r.last_cpu_s = cpu;
+                        r.virtual_s += if runnable { d_cpu.min(dt) } else { dt };
+                    }
+                    None => r.virtual_s += dt,
+                }
+            }
+        }
+        let oldest = running.iter().map(|r| r.virtual_s).fold(0.0_f64, f64::max);
+        if oldest > watchdog.as_secs_f64() || start.elapsed() > watchdog * 12 {
             timed_out = true;
+            watchdog_note = format!(
+                "oldest worker: {:.0} s of load-independent time, {:.0} s wall clock",
+                oldest,
+                start.elapsed().as_secs_f64()
+            );
             for r in &mut running {
                 let _ = r.child.kill();
                 let _ = r.child.wait();
@@ -579,7 +644,7 @@ fn parent(monitor: &'static dyn Monitor, args: &Args) -> i32 {
     }
     if timed_out {
         inconclusive.push(format!(
-            "wall-clock watchdog ({} s) fired before the workload finished",
+            "watchdog ({} s) fired before the workload finished ({watchdog_note})",
             watchdog.as_secs()
         ));
     }
